@@ -3,7 +3,7 @@ sys.setrecursionlimit(100000)
 from . import engine
 
 PROPS = {
-    'C06': 'c06',
+    'C06': 'c06', 'C07': 'c07', 'C08': 'c08', 'C09': 'c09',
 }
 
 
@@ -17,7 +17,9 @@ def main():
     seed = int(os.environ.get('VERIF_SEED', '0') or 0)
     if a.pid not in PROPS:
         print('unknown or not-applicable property ' + a.pid); sys.exit(2)
-    sys.exit(engine.main(a.pid, PROPS[a.pid], a.tier, seed, replay=a.replay, jobs=a.jobs))
+    rc = engine.main(a.pid, PROPS[a.pid], a.tier, seed, replay=a.replay, jobs=a.jobs)
+    sys.stdout.flush(); sys.stderr.flush()
+    os._exit(rc)
 
 
 if __name__ == '__main__':
